@@ -64,6 +64,46 @@ abbrev Stmt.factFree (s : Stmt) : Bool := s.allFuncs factFreeFunc
 
 abbrev Query.factFree (qy : Query) : Bool := qy.stmt.factFree
 
+/-! ### every statement passes the trivial check (used with a total oracle, which answers every function) -/
+
+theorem optAllFuncs_any (f : Option Expr) : optAllFuncs anyFunc f = true := by
+  cases f with
+  | none => rfl
+  | some e => exact Expr.allFuncs_any e
+
+theorem AggKind.allFuncs_any (k : AggKind) : k.allFuncs anyFunc = true := by
+  cases k <;> first | rfl | exact Expr.allFuncs_any _
+
+theorem AggItem.allFuncs_any (it : AggItem) : it.allFuncs anyFunc = true := by
+  unfold AggItem.allFuncs
+  rw [AggKind.allFuncs_any, optAllFuncs_any]; rfl
+
+theorem HavingRef.allFuncs_any (r : HavingRef) : r.allFuncs anyFunc = true := by
+  cases r with
+  | key _ => rfl
+  | agg _ k => exact AggKind.allFuncs_any k
+
+theorem Stmt.allFuncs_any (st : Stmt) : st.allFuncs anyFunc = true := by
+  cases st with
+  | select q =>
+    show SelectStmt.allFuncs anyFunc q = true
+    unfold SelectStmt.allFuncs
+    rw [optAllFuncs_any, Bool.and_true, List.all_eq_true]
+    intro p _; exact Expr.allFuncs_any p.2
+  | aggregate q =>
+    show AggStmt.allFuncs anyFunc q = true
+    unfold AggStmt.allFuncs
+    have h1 : q.items.all (·.allFuncs anyFunc) = true := List.all_eq_true.2 (fun it _ => AggItem.allFuncs_any it)
+    have h2 : (match q.groupBy with
+        | some parts => parts.all (fun p => p.1.allFuncs anyFunc)
+        | none => true) = true := by
+      cases q.groupBy with
+      | none => rfl
+      | some parts => exact List.all_eq_true.2 (fun p _ => Expr.allFuncs_any p.1)
+    have h3 : q.havingVisit.all (·.allFuncs anyFunc) = true := List.all_eq_true.2 (fun r _ => HavingRef.allFuncs_any r)
+    have h4 : q.havingAggs.all (fun p => p.2.allFuncs anyFunc) = true := List.all_eq_true.2 (fun p _ => AggKind.allFuncs_any p.2)
+    rw [h1, optAllFuncs_any, h2, optAllFuncs_any, h3, h4]; rfl
+
 theorem allFuncsList_columns (ok : Func → Bool) (keys : List String) : Expr.allFuncsList ok (keys.map Expr.column) = true := by
   induction keys with
   | nil => rfl
